@@ -3,6 +3,7 @@ import DryocVerif.Spec.Argon2
 import DryocVerif.Spec.X25519
 import DryocVerif.Model.PwhashStr
 import DryocVerif.Model.Argon2
+import DryocVerif.Model.PwhashApi
 open DryocVerif
 namespace Driver.Pwhash
 open DryocVerif.Model.PwhashStr
@@ -21,8 +22,9 @@ def specPwhash (alg outlen ops mem : Nat) (pwd salt : Bytes) : Outcome Bytes :=
   else if outlen < 16 ∨ salt.length < 8 then .err
   else .ok (Spec.Argon2.argon2 alg pwd salt [] [] ops (mem / 1024) 1 outlen)
 
-def argon2ForStr (ty t m p : Nat) (pwd salt : Bytes) (outlen : Nat) : Outcome Bytes :=
-  Model.Argon2.argon2Hash ty t m p pwd salt none none outlen
+/-- the Argon2 the string layer is run with: the model of `argon2_hash` (`argon2Model`), i.e. the
+instance the C10 theorems `…_model_…` are about -/
+abbrev argon2ForStr : Argon2Fn := argon2Model
 
 def handle (op : String) (args : List String) : Option Ans :=
   match op, args with
@@ -67,9 +69,11 @@ def handle (op : String) (args : List String) : Option Ans :=
     match ops.toNat?, mem.toNat?, ofHex pwd, ofHex ent with
     | some ops, some mem, some pwd, some ent =>
       let salt := (List.range 16).map (fun i => ent.getD (i % ent.length) 0)
-      match specPwhash 2 32 ops mem pwd salt with
-      | .ok h => some ("ok " ++ String.ofList (encode .argon2id (ops % 2^32) ((mem / 1024) % 2^32) salt h) ++ " own=okerr so=okerr draws=16", "n/a")
-      | _ => some ("err", "n/a")
+      -- `Model.PwhashStr.pwhashStr` is the definition the C10 theorems `pwhashStr_…` are about
+      match pwhashStr argon2ForStr pwd salt ops mem with
+      | .ok s => some ("ok " ++ String.ofList s ++ " own=okerr so=okerr draws=16", "n/a")
+      | .err => some ("err", "n/a")
+      | .panic => some ("panic", "n/a")
     | _, _, _, _ => none
   | "pwhash_obj", [ops, mem, hl, pwd, salt, _wrong] =>
     match ops.toNat?, mem.toNat?, hl.toNat?, ofHex pwd, ofHex salt with
